@@ -1345,6 +1345,8 @@ func c03(c *fw.Ctx) {
 	}
 	c.Floor("multi_history_upca_after_an EAN-8", 10000)
 	c.Floor("multi_history_ean8_lookalike_upca_after_ean8", 5000)
+	c.Run("cold", func(r *fw.Rec) { c03Cold(r) })
+	c.Floor("cold_start_first_operations", 35)
 	if !q {
 		c.Exhaustive("all 2 000 000 UPC-E numbers (number system 0/1 x 6 digits) written from the 7-digit form and read back at height 1")
 		c.Exhaustive("all 10 000 000 EAN-8 payloads written from the 7-digit form and read back at height 1")
